@@ -161,6 +161,9 @@ fn main() {
         // not diluted by the mixtures
         let ns = if thorough { 2000 } else { 300 };
         for (sname, skind) in STRATA.iter() {
+            // small second-order cones are cheap and were the stratum in which a seeded defect sat just
+            // below the decision threshold: twice the sample
+            let ns = if *sname == "soc_small" { 2 * ns } else { ns };
             for k in 0..ns {
                 let ncones = 1 + rng.below(4);
                 let cones: Vec<_> = (0..ncones).map(|_| stratum_cone(&mut rng, *skind)).collect();
